@@ -17,6 +17,7 @@ import (
 	"os"
 	"runtime/debug"
 	"strconv"
+	"strings"
 	"testing"
 	"time"
 
@@ -463,6 +464,31 @@ func binCompiledUnits(m *monitor) []func() {
 		}
 		return o
 	}
+	type seqT struct {
+		seq        string
+		k, n, olen int
+	}
+	seqShape := func(kind string, ts []seqT) func(*rand.Rand, int) batch {
+		return func(rng *rand.Rand, v int) batch {
+			var jobs []binJob
+			for _, t := range ts {
+				jobs = append(jobs, seqJob(rng, kind, t.seq, t.k, t.n, t.olen))
+			}
+			return &binBatch{jobs: jobs}
+		}
+	}
+	// WithMinimalLength(m), declared maxima m+off, actual length m / m+1 / maximum by assignment
+	minShape := func(kind string, m int, offs []int) func(*rand.Rand, int) batch {
+		return func(rng *rand.Rand, v int) batch {
+			var jobs []binJob
+			for _, off := range offs {
+				maxLen := m + off
+				n := []int{m, min(m+1, maxLen), maxLen}[v%3]
+				jobs = append(jobs, binJob{kind: kind, msg: makeMsg(rng, maxLen, "random"), content: "random", fixed: true, length: n, minLen: m})
+			}
+			return &binBatch{jobs: jobs}
+		}
+	}
 	nData := r.Pick(2, 6)
 	sets := []shapeSet{
 		{"sha256", sumShape("sha256", []int{0, 55, 56, 64, 119, 120, 128}, 65), nData},
@@ -503,6 +529,40 @@ func binCompiledUnits(m *monitor) []func() {
 			shapeSet{"sha3-256-more", sumShape("sha3-256", []int{1, 134, 137, 271, 272}, 0), 2},
 		)
 	}
+	// caller-buffer sequences on compiled circuits
+	sets = append(sets,
+		shapeSet{"sha256-alias", seqShape("sha256", []seqT{{"alias", 64, 72, 5}, {"alias-sum", 55, 135, 3}, {"reuse", 64, 130, 0}, {"alias-reset", 0, 12, 12}}), 2},
+		shapeSet{"ripemd160-alias", seqShape("ripemd160", []seqT{{"alias-reset", 55, 63, 8}, {"alias-sum", 1, 81, 3}, {"alias", 56, 70, 9}}), 2},
+		shapeSet{"sha3-384-alias", seqShape("sha3-384", []seqT{{"alias", 1, 9, 5}}), 2},
+	)
+	if r.Thorough() {
+		sets = append(sets,
+			shapeSet{"sha3-512-alias", seqShape("sha3-512", []seqT{{"alias", 71, 80, 5}, {"alias-reset", 72, 84, 12}, {"reuse", 71, 75, 0}}), 2},
+			shapeSet{"keccak256-alias", seqShape("keccak256", []seqT{{"alias-sum", 135, 140, 3}}), 2},
+		)
+	}
+	// WithMinimalLength on the boundaries; each circuit is solved for length = m, m+1, maximum
+	{
+		ms, offs := []int{55, 56, 63, 64, 65, 120}, []int{1, 64}
+		if r.Thorough() {
+			ms, offs = []int{54, 55, 56, 63, 64, 65, 118, 119, 120, 127, 128, 129, 183, 184}, []int{1, 64, 128}
+		}
+		for _, mm := range ms {
+			sets = append(sets, shapeSet{fmt.Sprintf("sha256-min%d", mm), minShape("sha256", mm, offs), 3})
+		}
+		sets = append(sets, shapeSet{"sha3-512-min71", minShape("sha3-512", 71, []int{1}), 2})
+		if r.Thorough() {
+			sets = append(sets,
+				shapeSet{"sha3-512-min72", minShape("sha3-512", 72, []int{1, 72, 144}), 3},
+				shapeSet{"sha3-512-min71b", minShape("sha3-512", 71, []int{72, 144}), 3},
+				shapeSet{"sha3-512-min62", minShape("sha3-512", 62, []int{1, 72}), 3},
+				shapeSet{"keccak256-min136", minShape("keccak256", 136, []int{1, 136}), 3},
+				shapeSet{"sha3-384-min103", minShape("sha3-384", 103, []int{1, 104}), 3},
+				shapeSet{"sha3-256-min135", minShape("sha3-256", 135, []int{1}), 2},
+				shapeSet{"keccak512-min73", minShape("keccak512", 73, []int{1}), 2},
+			)
+		}
+	}
 	blockShape := func(rng *rand.Rand, v int) batch {
 		c := contents[v%len(contents)]
 		return &blockBatch{jobs: []blockJob{{"sha256-block", makeMsg(rng, 96, c)}, {"keccakf", makeMsg(rng, 200, c)}}}
@@ -511,8 +571,12 @@ func binCompiledUnits(m *monitor) []func() {
 
 	curves := []*curveNat{curveNats[0]}
 	for ci, cv := range curves {
-		for _, s := range sets {
-			for _, en := range []string{"r1cs", "scs"} {
+		for si, s := range sets {
+			builders := []string{"r1cs", "scs"}
+			if strings.Contains(s.name, "-min") && s.name != "sha256-fixed-min" {
+				builders = builders[si%2 : si%2+1] // the boundary grid of minimal lengths alternates between the builders
+			}
+			for _, en := range builders {
 				cv, s, en := cv, s, en
 				_ = ci
 				units = append(units, func() {
@@ -632,6 +696,9 @@ func fieldJobs(r *vcore.Run, cv *curveNat, spec fhSpec, rng *rand.Rand, variant 
 		for _, split := range []int{0, 1, n} {
 			jobs = append(jobs, fJob{spec: spec, mode: "stream", msg: fieldElems(rng, p, n, "random"), split: split})
 		}
+	}
+	for _, split := range []int{0, 2} {
+		jobs = append(jobs, fJob{spec: spec, mode: "alias", msg: fieldElems(rng, p, 6, "random"), split: split})
 	}
 	if spec.Hash == "mimc" {
 		for _, split := range []int{0, 2, 4} {
